@@ -306,6 +306,7 @@ func extractC15(c *ctxT) {
 	str("tallyQuorumExpr", "x/gov/keeper/tally.go — source of the quorum that percentVoting is compared with", quorumExpr)
 	boolean("tallyQuorumByType", "it is keeper.GetCustomMsgQuorum(ctx, params.Quorum, proposal)", quorumByType)
 	str("tallyQuorumCmp", "comparison: the proposal fails for lack of quorum when percentVoting.<cmp>(quorum)", quorumCmp)
+	c.c15Tally(b, tl, str, boolean)
 
 	// ---------------------------------------------------------------- proposal.go
 	lookupShape := func(fn, field, def string) bool {
